@@ -11,7 +11,7 @@ META = {
                    "of a received vector (R2.8); where opened values are accepted through a symmetric fold with the own value (sum compared with 0, "
                    "or the sum becomes a seed) the commitment binds the id of the committing party (R3.bind-id: no mirroring). All facts are over every CFG "
                    "path, i.e. for every adversarial message, index and party. Does not decide that the checks are cryptographically "
-                   "sufficient or that the accepted value is f(x_honest, x').",
+                   "sufficient or that the accepted value is f(x_honest, x'). (R2.key) the AEAD key and nonce of a garbled row bind all four GarblingKey components: the writes into the key / nonce arrays have pairwise disjoint constant byte ranges and every field reaches one.",
     "assumptions": [
         "message component = value reached from a receive result through structure-preserving MIR edges inside the receiving function",
         "a weakened-but-still-Delta-dependent comparison (e.g. on some bits only) is not detected",
@@ -32,3 +32,4 @@ def run(ctx, res):
     import r3
     r2.enrich(S)
     r3.rule_bind_id(S, res)
+    r2.rule_row_key_binding(S, res)
